@@ -160,6 +160,8 @@ fn drop_conn(run: &RunDesc, c: usize) -> RunDesc {
                 Action::Close(x) => Action::Close(f(*x)),
                 Action::Reset(x) => Action::Reset(f(*x)),
                 Action::Probe => Action::Probe,
+                Action::Hold => Action::Hold,
+                Action::Release => Action::Release,
             }
         })
         .collect();
@@ -210,7 +212,7 @@ fn minimise(run: &RunDesc, class: &str) -> RunDesc {
     // probes and other single actions
     let mut i = 0;
     while i < cur.actions.len() && tries < limit {
-        if matches!(cur.actions[i], Action::Probe | Action::Drain(..) | Action::HalfClose(_) | Action::Close(_) | Action::Reset(_)) {
+        if matches!(cur.actions[i], Action::Probe | Action::Hold | Action::Release | Action::Drain(..) | Action::HalfClose(_) | Action::Close(_) | Action::Reset(_)) {
             let mut cand = cur.clone();
             cand.actions.remove(i);
             if still_fails(&cand, class, &mut tries) {
@@ -387,9 +389,14 @@ fn check(tier: &str) -> i32 {
             mism.push(*i);
         }
     }
-    if !mism.is_empty() {
-        let _ = std::fs::remove_dir_all(scratch());
-        simcommon::harness_error(&format!("determinism self-test failed for runs {:?}", &mism[..mism.len().min(8)]));
+    // A mismatch means the system under test is not under the simulator's full
+    // control (e.g. it started real threads). That is never a verdict by
+    // itself: violations below are still reported, because each is confirmed
+    // by re-execution of its explicit description; but without any violation
+    // the run ends as a harness error instead of claiming that the property held.
+    let nondeterministic = !mism.is_empty();
+    if nondeterministic {
+        eprintln!("[c20] determinism self-test: {} of {} runs differ between two executions, e.g. {:?}", mism.len(), again.len(), &mism[..mism.len().min(8)]);
     }
 
     // ---- aggregate
@@ -444,7 +451,8 @@ fn check(tier: &str) -> i32 {
         }
         let run = svgbob_verif_srvsim::generate(seed, *idx, thorough);
         let mut tries = 0;
-        if !still_fails(&run, class, &mut tries) {
+        let attempts = if nondeterministic { 5 } else { 1 };
+        if !(0..attempts).any(|_| still_fails(&run, class, &mut tries)) {
             unconfirmed += 1;
             eprintln!("[c20] {} at run {} did not reproduce from its explicit description", class, idx);
             continue;
@@ -495,7 +503,7 @@ fn check(tier: &str) -> i32 {
     ev.cov("interleaving_measure", json!("digest of the run's action sequence abstracted to (action kind, connection slot)"));
     ev.cov("runs_per_hour", json!((total as f64 / wall * 3600.0) as u64));
     ev.cov("simulated_time", json!("none: hyper sets no timers and the handlers never await; progress is counted in simulator steps (totals.steps) and quiescence rounds"));
-    ev.cov("determinism_selftest", json!({"runs_executed_twice": again.len(), "mismatches": 0, "worker_counts": [threads, 3.min(threads)], "compared": "event-log digest, response digest (date header masked), verdicts"}));
+    ev.cov("determinism_selftest", json!({"runs_executed_twice": again.len(), "mismatches": mism.len(), "worker_counts": [threads, 3.min(threads)], "compared": "event-log digest, response digest (date header masked), verdicts"}));
     ev.cov("real_vs_stub", json!({"real": ["svgbob_server main.rs (unmodified, incl. PORT parsing and router construction)", "handlers", "axum routing / extractors / body limit", "hyper server: accept loop, per-connection tasks, HTTP/1 parser and encoder, keep-alive, pipelining", "tokio current-thread scheduler", "svgbob library"], "stub": ["TCP listener and sockets (in-memory SimIncoming/SimStream)", "clients (scripted bytes)", "multi-thread flavour of the runtime (handlers share only the library's statics, which is C07's subject)", "getrandom (seeded)"]}));
     ev.cov("violation_classes_seen", json!(by_class.iter().map(|(k, v)| (k.clone(), v.1)).collect::<BTreeMap<_, _>>()));
     ev.cov("violations_sample", json!(vio_samples));
@@ -519,6 +527,8 @@ fn check(tier: &str) -> i32 {
     eprintln!("[c20] {} runs, {} requests, {} responses checked, {} distinct interleavings, {} violation classes, {:.1}s", total, totals.get("requests").copied().unwrap_or(0), totals.get("responses_checked").copied().unwrap_or(0), interleavings.len(), by_class.len(), wall);
     if !violation_lines.is_empty() {
         1
+    } else if nondeterministic {
+        simcommon::harness_error(&format!("determinism self-test failed for runs {:?} and no violation was confirmed: the server is not fully under the simulator's control", &mism[..mism.len().min(8)]))
     } else if unconfirmed > 0 {
         simcommon::harness_error("a violation did not reproduce from its explicit description")
     } else {
